@@ -82,6 +82,7 @@ class State:
             if k not in n.__dict__ and k not in ('pc', 'exc', 'caught', 'trace', 'steps'):
                 n.__dict__[k] = dict(v) if isinstance(v, dict) else list(v) if isinstance(v, list) else set(v) if isinstance(v, set) else v
         n.nd_log = list(s.nd_log); n.notes = list(s.notes)
+        s.hb_own = False; n.hb_own = False
         n.mdl = getattr(s, 'mdl', None); n.mdl_n = getattr(s, 'mdl_n', -1); n.mdl_alt = getattr(s, 'mdl_alt', None); n.mdl_alt_n = getattr(s, 'mdl_alt_n', -1)
         n.pc = list(s.pc); n.exc = s.exc; n.caught = list(s.caught); n.trace = list(s.trace); n.steps = s.steps
         return n
@@ -697,23 +698,54 @@ class Engine:
         where = getattr(st, 'exc_where', None)
         s.violations.append({'msg': msg, 'values': vals, 'schedule': list(st.sched_log), 'stack': stack[st.cur] if st.cur < len(stack) else [],
                              'exc_where': where, 'notes': list(st.notes), 'model_unavailable': mdl is None})
-    def track(s, st, addr, is_write, fr, work):
+    # ---------- happens-before race detection (vector clocks). Edges: thread start/join, mutex unlock->lock (also inside condition
+    # waits), atomic operations on the same address. Every plain load/store of heap/global memory by a thread is checked against the
+    # last write and the reads since; an unordered conflicting pair is a data race.
+    def vc_of(s, st, tid):
+        if not hasattr(st, 'vc'): st.vc = {}; st.sync_vc = {}; st.hb = {}
+        v = st.vc.get(tid)
+        if v is None: v = {tid: 1}; st.vc[tid] = v
+        return v
+    def vc_release(s, st, tid, key):
+        v = s.vc_of(st, tid); st.sync_vc = dict(st.sync_vc); old = st.sync_vc.get(key)
+        nv = dict(v)
+        if old:
+            for k, c in old.items():
+                if nv.get(k, 0) < c: nv[k] = c
+        st.sync_vc[key] = nv
+        st.vc = dict(st.vc); w = dict(v); w[tid] = w.get(tid, 0) + 1; st.vc[tid] = w
+    def vc_acquire(s, st, tid, key):
+        v = s.vc_of(st, tid); o = st.sync_vc.get(key)
+        if not o: return
+        w = dict(v)
+        for k, c in o.items():
+            if w.get(k, 0) < c: w[k] = c
+        st.vc = dict(st.vc); st.vc[tid] = w
+    def track(s, st, addr, is_write, fr, work, atomic=False):
         if len(st.threads) < 2 or is_sym(addr): return
         o = s.find_obj(st, addr)
         if o is None or o[2] not in ('heap', 'global'): return
-        tid = st.cur; ls = st.threads[tid].locks
-        e = st.er.get(addr)
-        if e is None: st.er[addr] = ('excl', tid, None)
+        tid = st.cur
+        if atomic:
+            s.vc_acquire(st, tid, ('a', addr)); s.vc_release(st, tid, ('a', addr)); return
+        v = s.vc_of(st, tid)
+        h = st.hb.get(addr)
+        race = None
+        if h is not None:
+            wt, wc, reads = h
+            if wt is not None and wt != tid and v.get(wt, 0) < wc: race = ('write', wt)
+            if is_write and race is None:
+                for rt, rc in reads.items():
+                    if rt != tid and v.get(rt, 0) < rc: race = ('read', rt); break
+        if race is not None and addr not in s.races:
+            s.races[addr] = (fr.fn.name, tid, is_write, o[0])
+        st.hb = dict(st.hb) if not getattr(st, 'hb_own', False) else st.hb
+        st.hb_own = True
+        if is_write: st.hb[addr] = (tid, v.get(tid, 0), {})
         else:
-            state, owner, cand = e
-            if state == 'excl':
-                if owner != tid: st.er[addr] = ('sharedmod' if is_write else 'shared', owner, ls)
+            if h is None: st.hb[addr] = (None, 0, {tid: v.get(tid, 0)})
             else:
-                cand = cand & ls
-                if is_write: state = 'sharedmod'
-                st.er[addr] = (state, owner, cand)
-                if state == 'sharedmod' and not cand:
-                    s.races.setdefault(addr, (fr.fn.name, tid, is_write, o[0]))
+                r2 = dict(h[2]); r2[tid] = v.get(tid, 0); st.hb[addr] = (h[0], h[1], r2)
         if addr in s.racy_points and work is not None:
             s.switch(st, work, False)
 
@@ -731,6 +763,10 @@ class Engine:
         """scheduling point. must=True: current thread cannot continue."""
         cands = [t.tid for t in st.threads if t.tid != st.cur and s.enabled(st, t)]
         if must:
+            if not cands:
+                # nobody else can run: a thread sleeping in a TIMED wait eventually times out (the expiry bound only limits early expiries)
+                cands = [t.tid for t in st.threads if not t.finished and t.blocked is not None and t.blocked[0] == 'cond' and t.blocked[2]]
+                for c in cands: st.threads[c].timeouts = -1000000
             if not cands:
                 if all(t.finished for t in st.threads): raise PathEnd()
                 raise Violation('deadlock: no thread can run; blocked: %s' % [(t.tid, t.blocked) for t in st.threads if not t.finished])
@@ -882,12 +918,12 @@ class Engine:
             a = s.val(st, fr, ins.a)
             if a is UNDEF: raise Violation('load through uninitialised pointer')
             fr.regs[R] = s.load(st, a, ins.ty)
-            s.track(st, a, False, fr, work)
+            s.track(st, a, False, fr, work, getattr(ins, 'atomic', False))
         elif op == 'store':
             a = s.val(st, fr, ins.a)
             if a is UNDEF: raise Violation('store through uninitialised pointer')
             s.store(st, a, ins.ty, s.val(st, fr, ins.v))
-            s.track(st, a, True, fr, work)
+            s.track(st, a, True, fr, work, getattr(ins, 'atomic', False))
         elif op == 'alloca':
             n = 1 if ins.n is None else s.concretize(st, s.val(st, fr, ins.n))
             base = s.alloc(st, max(s.sizeof(ins.ty) * n, 1), 'stack')
@@ -968,6 +1004,7 @@ class Engine:
             a = s.val(st, fr, ins.a); old = s.load(st, a, ins.ty); v = s.val(st, fr, ins.v)
             new = v if ins.rop == 'xchg' else s.binop(ins.rop, ins.ty, old, v)
             s.store(st, a, ins.ty, new); fr.regs[R] = old
+            s.track(st, a, True, fr, work, True)
         elif op == 'fence':
             pass
         elif op == 'phi':
@@ -1416,13 +1453,13 @@ def cur(st): return st.threads[st.cur]
 def m_mutex_lock(e, st, args):
     m = args[0]; th = cur(st)
     if e.load(st, m, I32) != 0: raise Block(('mutex', m))
-    e.store(st, m, I32, 1); th.blocked = None; th.locks = th.locks | {m}; st.want_sched = True; return 0
+    e.store(st, m, I32, 1); th.blocked = None; th.locks = th.locks | {m}; e.vc_acquire(st, th.tid, ('m', m)); st.want_sched = True; return 0
 def m_mutex_trylock(e, st, args):
     m = args[0]
     if e.load(st, m, I32) != 0: st.want_sched = True; return 16
-    e.store(st, m, I32, 1); cur(st).locks = cur(st).locks | {m}; st.want_sched = True; return 0
+    e.store(st, m, I32, 1); cur(st).locks = cur(st).locks | {m}; e.vc_acquire(st, cur(st).tid, ('m', m)); st.want_sched = True; return 0
 def m_mutex_unlock(e, st, args):
-    e.store(st, args[0], I32, 0); cur(st).locks = cur(st).locks - {args[0]}; st.want_sched = True; return 0
+    e.vc_release(st, cur(st).tid, ('m', args[0])); e.store(st, args[0], I32, 0); cur(st).locks = cur(st).locks - {args[0]}; st.want_sched = True; return 0
 def cvs(st, a):
     if a not in st.cv: st.cv[a] = (set(), set())
     return st.cv[a]
@@ -1436,11 +1473,11 @@ def m_notify_one(e, st, args):
 def relock(e, st, th, mutex, ret):
     if e.load(st, mutex, I32) != 0:
         th.phase = ('relock', mutex, ret); raise Block(('mutex', mutex))
-    e.store(st, mutex, I32, 1); th.phase = None; th.blocked = None; th.locks = th.locks | {mutex}; st.want_sched = True; return ret
+    e.store(st, mutex, I32, 1); th.phase = None; th.blocked = None; th.locks = th.locks | {mutex}; e.vc_acquire(st, th.tid, ('m', mutex)); st.want_sched = True; return ret
 def m_cv_wait(e, st, args):
     cv, lk = args; th = cur(st)
     if th.phase is None:
-        mutex = e.load(st, lk, I64); e.store(st, mutex, I32, 0); th.locks = th.locks - {mutex}
+        mutex = e.load(st, lk, I64); e.vc_release(st, th.tid, ('m', mutex)); e.store(st, mutex, I32, 0); th.locks = th.locks - {mutex}
         cvs(st, cv)[0].add(th.tid); th.phase = ('cvwait', cv, mutex); raise Block(('cond', cv, False))
     if th.phase[0] == 'cvwait':
         cvs(st, cv)[1].discard(th.tid); return relock(e, st, th, th.phase[2], None)
@@ -1448,7 +1485,7 @@ def m_cv_wait(e, st, args):
 def m_cond_clockwait(e, st, args):
     cv, mutex, clk, ts = args; th = cur(st)
     if th.phase is None:
-        e.store(st, mutex, I32, 0); th.locks = th.locks - {mutex}
+        e.vc_release(st, th.tid, ('m', mutex)); e.store(st, mutex, I32, 0); th.locks = th.locks - {mutex}
         cvs(st, cv)[0].add(th.tid); th.phase = ('cvwait', cv, mutex); raise Block(('cond', cv, True))
     if th.phase[0] == 'cvwait':
         w, k = cvs(st, cv)
@@ -1468,12 +1505,19 @@ def m_start_thread(e, st, args):
     vt = e.load(st, state, I64); fa = e.load(st, vt + 16, I64)
     fn = e.m.funcs[e.addr2f[fa]]
     fr = Frame(fn); fr.regs[fn.params[0][1]] = state; t.stack.append(fr)
-    e.store(st, thr, I64, t.tid); st.want_sched = True; return None
+    e.store(st, thr, I64, t.tid)
+    pv = e.vc_of(st, cur(st).tid); st.vc = dict(st.vc); cv_ = dict(pv); cv_[t.tid] = 1; st.vc[t.tid] = cv_; w = dict(pv); w[cur(st).tid] = w.get(cur(st).tid, 0) + 1; st.vc[cur(st).tid] = w
+    st.want_sched = True; return None
 def m_join(e, st, args):
     thr = args[0]; tid = e.load(st, thr, I64); th = cur(st)
     if tid == 0: st.exc = (0, ('std', 'system_error')); return None
     if not st.threads[tid].finished: raise Block(('join', tid))
-    th.blocked = None; e.store(st, thr, I64, 0); return None
+    th.blocked = None; e.store(st, thr, I64, 0)
+    jv = e.vc_of(st, tid); mv = dict(e.vc_of(st, th.tid))
+    for k, c in jv.items():
+        if mv.get(k, 0) < c: mv[k] = c
+    st.vc = dict(st.vc); st.vc[th.tid] = mv            # join: everything the joined thread did happens-before what the joiner does next
+    return None
 SYNC_MODELS = {
     'pthread_mutex_lock': m_mutex_lock, 'pthread_mutex_trylock': m_mutex_trylock, 'pthread_mutex_unlock': m_mutex_unlock,
     '_ZNSt18condition_variableC1Ev': m_cv_ctor, '_ZNSt18condition_variableD1Ev': lambda e, st, a: None,
